@@ -55,7 +55,9 @@ def sym_of(tree, syms):
 def torch_of(tree, coords):
     k = tree[0]
     if k == "var":
-        return coords[tree[1]].narrow(-1, tree[2], 1)
+        c = coords[tree[1]]
+        # a one-dimensional variable is used as it is (the INPUT tensor itself, as in `u - t`), not through a view
+        return c if c.shape[-1] == 1 else c.narrow(-1, tree[2], 1)
     if k == "const":
         any_c = next(iter(coords.values()))
         return torch.full(any_c.shape[:-1] + (1,), tree[1], dtype=any_c.dtype)
